@@ -44,6 +44,9 @@ func forkAndExecInChild(r *Runner, argv0 *byte, argv, env []*byte, workdir, host
 	}
 	flag |= uintptr(syscall.SIGCHLD)
 
+	// a traced child checks that the process that forked it is still its parent
+	ppid := uintptr(syscall.Getpid())
+
 	// Acquire the fork lock so that no other threads
 	// create new fds that are not yet close-on-exec
 	// before we fork.
@@ -408,6 +411,22 @@ func forkAndExecInChild(r *Runner, argv0 *byte, argv, env []*byte, workdir, host
 				}
 			}
 		}
+		// the tracer sets PTRACE_O_EXITKILL only at the first stop of this process; until
+		// then let the kernel kill it if the tracer (its parent) dies, instead of
+		// leaving it stopped for ever
+		_, _, err1 = syscall.RawSyscall(syscall.SYS_PRCTL, syscall.PR_SET_PDEATHSIG, uintptr(syscall.SIGKILL), 0)
+		if err1 != 0 {
+			childExitError(pipe, LocPtraceMe, err1)
+		}
+		if r.CloneFlags&syscall.CLONE_NEWPID == 0 {
+			r1, _, err1 = syscall.RawSyscall(syscall.SYS_GETPPID, 0, 0, 0)
+			if err1 != 0 {
+				childExitError(pipe, LocPtraceMe, err1)
+			}
+			if r1 != ppid {
+				childExitError(pipe, LocPtraceMe, syscall.ESRCH)
+			}
+		}
 		_, _, err1 = syscall.RawSyscall(syscall.SYS_PTRACE, uintptr(syscall.PTRACE_TRACEME), 0, 0)
 		if err1 != 0 {
 			childExitError(pipe, LocPtraceMe, err1)
@@ -485,6 +504,22 @@ func forkAndExecInChild(r *Runner, argv0 *byte, argv, env []*byte, workdir, host
 
 	// Enable ptrace if no seccomp is needed
 	if r.Ptrace && r.Seccomp == nil {
+		// the tracer sets PTRACE_O_EXITKILL only at the first stop of this process; until
+		// then let the kernel kill it if the tracer (its parent) dies, instead of
+		// leaving it stopped for ever
+		_, _, err1 = syscall.RawSyscall(syscall.SYS_PRCTL, syscall.PR_SET_PDEATHSIG, uintptr(syscall.SIGKILL), 0)
+		if err1 != 0 {
+			childExitError(pipe, LocPtraceMe, err1)
+		}
+		if r.CloneFlags&syscall.CLONE_NEWPID == 0 {
+			r1, _, err1 = syscall.RawSyscall(syscall.SYS_GETPPID, 0, 0, 0)
+			if err1 != 0 {
+				childExitError(pipe, LocPtraceMe, err1)
+			}
+			if r1 != ppid {
+				childExitError(pipe, LocPtraceMe, syscall.ESRCH)
+			}
+		}
 		_, _, err1 = syscall.RawSyscall(syscall.SYS_PTRACE, uintptr(syscall.PTRACE_TRACEME), 0, 0)
 		if err1 != 0 {
 			childExitError(pipe, LocPtraceMe, err1)
